@@ -28,6 +28,11 @@ func docsEqual(a, b bsonkit.Doc) bool {
 // same serialized bytes). Comparing the interface values directly panics for
 // documents, arrays and binaries.
 func sameValue(a, b interface{}) bool {
+	// a missing value is only equal to a missing value
+	if a == bsonkit.Missing || b == bsonkit.Missing {
+		return a == b
+	}
+
 	return docsEqual(&bson.D{{Key: "v", Value: a}}, &bson.D{{Key: "v", Value: b}})
 }
 
